@@ -6,6 +6,7 @@ import SlocModel.Driver.Trend
 import SlocModel.Driver.Baseline
 import SlocModel.Driver.Structure
 import SlocModel.Driver.AtomicWrite
+import SlocModel.Driver.Remote
 open SlocModel.Driver
 
 def dispatch (line : String) : String :=
@@ -28,6 +29,7 @@ def dispatch (line : String) : String :=
       | "duration" => handleDuration args
       | "baseline-step" => handleBaselineStep args
       | "save-crash" => handleSaveCrash args
+      | "fetch-seq" => handleFetchSeq args
       | "struct-dir" => handleStructDir args
       | "walk" => handleWalk args
       | "base-depth" => handleBaseDepth args
